@@ -162,22 +162,53 @@ class SpecGen:
                 args.append([a, self.leaf()])
         return {"t": "model", "cls": cls, "args": args}
 
-    def coll(self, depth):
+    def coll(self, depth, shape=None):
+        """shape (root only): "list" = af.Collection([..]) whose item names are "0", "1", ...; "alias" = one Model
+        OBJECT appears twice in the container (every prior of it under two paths); "names" = legal but unusual
+        attribute names (digits, underscores, a name the Sample class itself uses)."""
         rng = self.rng
         n = rng.randint(1, 3 if depth == 0 else 2)
+        if shape == "alias":
+            n = max(n, 2)
+        names = ["g%d" % i for i in range(n)]
+        if shape == "list":
+            names = [str(i) for i in range(n)]
+        elif shape == "names":
+            # (not a trailing underscore: the MLE searches' plots label parameters `z^{\rm <component>}` and matplotlib's
+            #  mathtext rejects `x1_}` -- the fit dies in the plotter and returns no result: outside C05's statement)
+            names = ["g_0", "weight", "x1_y"][:n]
         items = []
-        for i in range(n):
-            if depth < 1 and rng.random() < 0.25:
+        for i in range(n - 1 if shape == "alias" else n):
+            if shape is None and depth < 1 and rng.random() < 0.25:
                 self.features.add("nested")
                 items.append(["sub%d" % i, self.coll(depth + 1)])
             else:
-                items.append(["g%d" % i, self.model(depth + 1)])
-        return {"t": "coll", "items": items}
+                items.append([names[i], self.model(depth + 1)])
+        node = {"t": "coll", "items": items}
+        if shape == "list":
+            node["list"] = True
+        if shape == "alias":
+            items.append([names[n - 1], {"t": "alias", "of": names[rng.randrange(0, n - 1)]}])
+        if shape:
+            self.features.add("shape:" + shape)
+        return node
 
 
-def gen_spec(rng, max_priors=5):
+SHAPES = [None, "root-model", "list", "alias", "names"]
+
+
+def gen_spec(rng, max_priors=5, shape=None):
     g = SpecGen(rng, max_priors)
-    root = g.coll(0)
+    if shape == "root-model":
+        # the model handed to the search is a single af.Model: every path has one name
+        root = g.model(1)
+        while not g.priors:
+            root = g.model(1)
+        g.features.add("shape:root-model")
+    else:
+        root = g.coll(0, shape)
+        if shape == "alias" and not g.priors:          # the aliased object must carry a prior
+            return gen_spec(rng, max_priors, shape)
     creation = list(range(len(g.priors)))
     if rng.random() < 0.65:
         rng.shuffle(creation)
@@ -194,7 +225,11 @@ def leaves(node, prefix=()):
     if t == "const":
         return [(".".join(prefix), ("c", unhex(node["v"])))]
     out = []
+    seen = {}
     for name, sub in (node["args"] if t == "model" else node["items"]):
+        if sub["t"] == "alias":
+            sub = seen[sub["of"]]
+        seen[name] = sub
         out += leaves(sub, prefix + (name,))
     return out
 
@@ -253,15 +288,49 @@ CONV_SEARCHES = ["emcee", "zeus", "dynesty_static", "dynesty_dynamic", "nautilus
                  "drawer", "pyswarms_global", "pyswarms_local", "from_lists"]
 
 
-def gen_conv(rng, search, spec=None):
-    spec = spec or gen_spec(rng)
+def special_rows(spec, terms):
+    """Legal but unusual points: the exact optimum of the likelihood (L = -0.0 when no parameter is fixed or shared),
+    0.0 / -0.0 wherever the prior allows it, the lower limits."""
+    first_t = {}
+    for (path, (kind, x)), (_, c, t) in zip(leaves(spec["root"]), terms):
+        if kind == "p":
+            first_t.setdefault(x, t)
+    opt = [first_t[k] for k in spec["creation"]]
+    zeros, los = [], []
+    for i, k in enumerate(spec["creation"]):
+        p = spec["priors"][k]
+        lo, hi = unhex(p["lo"]), unhex(p["hi"])
+        zeros.append((0.0 if i % 2 == 0 else -0.0) if lo <= 0.0 <= hi else lo)
+        los.append(lo)
+    return [opt, zeros, los]
+
+
+def inject(rng, rows, spec, terms, hist):
+    """Overwrites up to three entries of a non-empty list of parameter vectors with the special points (one of
+    them twice: equal but distinct rows)."""
+    if not rows:
+        return
+    sp = special_rows(spec, terms)
+    sp.append(list(sp[0]))
+    for v in sp:
+        if rng.random() < 0.6:
+            rows[rng.randrange(len(rows))] = list(v)
+            hist.add("special-row")
+
+
+def gen_conv(rng, search, spec=None, shape=None, history=False, variant=None):
+    spec = spec or gen_spec(rng, shape=shape)
     terms = terms_of(rng, spec)
     L = lambda v: L_of_vector(spec, terms, v)
     st = {}
+    special = set()
     if search in ("emcee", "zeus"):
         S = rng.randint(8, 28)
         W = rng.randint(2, 5)
         chain = [[rand_vec(rng, spec) for _ in range(W)] for _ in range(S)]
+        for step in chain[-4:]:
+            if rng.random() < 0.5:
+                inject(rng, step, spec, terms, special)
         r = rng.random()
         if r < 0.06:
             tau = rng.uniform(0.2, 1.99)          # thin = 0 -> the sampler raises
@@ -276,6 +345,8 @@ def gen_conv(rng, search, spec=None):
         rows = [rand_vec(rng, spec) for _ in range(n)]
         if n > 3 and rng.random() < 0.3:
             rows[rng.randrange(n)] = list(rows[0])     # a repeated point (ties)
+        if rng.random() < 0.5:
+            inject(rng, rows, spec, terms, special)
         st = {"rows": [hexvec(v) for v in rows], "L": [L(v).hex() for v in rows]}
         logwt = [rng.uniform(-30.0, 0.0) for _ in range(n)]
         st["logwt"] = hexvec(logwt)
@@ -290,12 +361,17 @@ def gen_conv(rng, search, spec=None):
         vis = rng.random() < 0.5
         st = {"x": hexvec(x), "Lx": L(x).hex(), "visualize": vis}
         if vis:
-            hist = [rand_vec(rng, spec) for _ in range(rng.randint(0, 7))] + [x]
+            hist = [rand_vec(rng, spec) for _ in range(rng.randint(0, 7))]
+            if rng.random() < 0.5:
+                inject(rng, hist, spec, terms, special)
+            hist = hist + [x]
             st["hist"] = [hexvec(v) for v in hist]
             st["hist_L"] = [L(v).hex() for v in hist]
     elif search == "drawer":
         n = rng.randint(1, 25)
         rows = [rand_vec(rng, spec) for _ in range(n)]
+        if rng.random() < 0.5:
+            inject(rng, rows, spec, terms, special)
         st = {"rows": [hexvec(v) for v in rows], "L": [L(v).hex() for v in rows]}
         if n > 1 and rng.random() < 0.2:
             st["drop"] = rng.randint(1, n - 1)      # fewer log-posteriors than parameter vectors (zip truncation)
@@ -303,6 +379,9 @@ def gen_conv(rng, search, spec=None):
         T = rng.randint(1, 7)
         P = rng.randint(1, 5)
         pos = [[rand_vec(rng, spec) for _ in range(P)] for _ in range(T)]
+        for it in pos:
+            if rng.random() < 0.3:
+                inject(rng, it, spec, terms, special)
         st = {"pos": [[hexvec(v) for v in it] for it in pos], "L": [[L(v).hex() for v in it] for it in pos]}
     elif search == "from_lists":
         n = rng.randint(0, 12)
@@ -329,24 +408,74 @@ def gen_conv(rng, search, spec=None):
                 m = max(lls)
                 lls[rng.randrange(len(lls))] = m
                 st["ll"] = hexvec(lls)
+        r = rng.random() if variant is None or variant >= 10 else 0.0
+        if st["ll"] and r < 0.45:
+            # unusual but legal values: a maximum that is exactly 0.0 / -0.0 (falsy), whole numbers, zero weights
+            lls = [unhex(x) for x in st["ll"]]
+            modes = ["zero-max", "negzero-max", "both-zeros", "whole", "all-equal"]
+            mode = rng.choice(modes) if variant is None or variant >= 10 else modes[variant % 5]
+            if mode == "whole":
+                lls = [x if math.isnan(x) or math.isinf(x) else float(math.floor(x)) for x in lls]
+                lls[rng.randrange(len(lls))] = 0.0
+            elif mode == "all-equal":
+                lls = [rng.choice([0.0, -0.0, -1.0])] * len(lls)
+            else:
+                lls = [x if math.isnan(x) or x < 0 else -1.0 for x in lls]
+                i = rng.randrange(len(lls))
+                lls[i] = 0.0 if mode != "negzero-max" else -0.0
+                if mode == "both-zeros" and len(lls) > 1:
+                    lls[(i + 1 + rng.randrange(len(lls) - 1)) % len(lls)] = -0.0
+            st["ll"] = hexvec(lls)
+            ws = [unhex(x) for x in st["w"]]
+            if ws:
+                ws[rng.randrange(len(ws))] = 0.0
+                st["w"] = hexvec(ws)
+            special.add("ll:" + mode)
+        st["scalar"] = rng.choice(["float", "float", "np", "int"]) if variant is None else ["float", "np", "int"][variant % 3]
+        if rows and rng.random() < 0.5:
+            inject(rng, rows, spec, terms, special)
+            st["rows"] = [hexvec(v) for v in rows]
     else:
         raise ValueError(search)
-    return {"kind": "conv", "search": search, "spec": spec, "terms": terms, "state": st,
+    case = {"kind": "conv", "search": search, "spec": spec, "terms": terms, "state": st, "special": sorted(special),
             "spec_paths": [p for p, _ in leaves(spec["root"])]}
+    if history:
+        # the same search object and model object have converted another sampler state before (other arrays and
+        # lengths; for BFGS the other `visualize` setting), and convert this one twice
+        for _ in range(20):
+            prev = gen_conv(rng, search, spec)["state"]
+            if search not in ("bfgs", "lbfgs") or prev["visualize"] != st["visualize"]:
+                break
+        case["history"] = "reuse"
+        case["prev_state"] = prev
+    return case
 
 
-def gen_init(rng):
+def gen_init(rng, history=False, falsy=False, shape=None):
     """AbstractInitializer.samples_from_model driven by a scripted fitness."""
-    spec = gen_spec(rng, max_priors=3)
+    spec = gen_spec(rng, max_priors=3, shape=shape)
     kinds = ["fitexc", "nan", "low", "neginf"]
-    bands, lo = [], 0.0
-    for k in rng.sample(kinds, rng.randint(0, 3)):
-        w = rng.choice([0.1, 0.15, 0.25])
-        bands.append([lo, lo + w, k])
-        lo += w
-    return {"kind": "init", "search": "initializer", "spec": spec, "seed": rng.randrange(10 ** 6),
-            "state": {"total": rng.choice([1, 2, 3, 5, 8, 13]), "cores": rng.choice([1, 2, 2, 3, 3]), "bands": bands,
-                      "delay": rng.choice([0.0, 0.003])}}
+
+    def gen_bands(total):
+        bands, lo = [], 0.0
+        for k in rng.sample(kinds, rng.randint(0, 3)):
+            w = rng.choice([0.1, 0.15, 0.25])
+            bands.append([lo, lo + w, k])
+            lo += w
+        if total >= 5 and (falsy or rng.random() < 0.3):
+            # a LEGAL figure of merit that is falsy or not a Python float: exactly 0.0, -0.0, an int, a 0-d array
+            # (only with >= 5 points: two equal figures of merit alone would raise InitializerException)
+            bands.append([lo, lo + 0.1, rng.choice(["zero", "negzero", "int", "np0d"])])
+        return bands
+
+    total = rng.choice([5, 8, 13]) if falsy else rng.choice([1, 2, 3, 5, 8, 13])
+    st = {"total": total, "cores": rng.choice([1, 2, 2, 3, 3]), "bands": gen_bands(total), "delay": rng.choice([0.0, 0.003])}
+    if history:
+        # the same initializer object has served another call before (other size, cores, rejection bands); the
+        # caller has edited the lists that call returned
+        pt = rng.choice([1, 2, 3, 5])
+        st["prev"] = {"total": pt, "cores": rng.choice([1, 2, 3]), "bands": gen_bands(0)}
+    return {"kind": "init", "search": "initializer", "spec": spec, "seed": rng.randrange(10 ** 6), "state": st}
 
 
 def init_value(params):
@@ -364,6 +493,9 @@ def init_kind(bands, params):
     return "value"
 
 
+INIT_VALID = {"zero": 0.0, "negzero": -0.0, "int": -3.0}
+
+
 def init_oracle(c, r):
     """Every returned (parameters, figure of merit) pair: the figure of merit is the fitness of those very
     parameters, none of them is a rejected point, and total_points pairs come back."""
@@ -372,13 +504,20 @@ def init_oracle(c, r):
     if not (len(r["params"]) == len(r["foms"]) == len(r["units"]) == st["total"]):
         out.append(("count", "asked for %d points, got %d parameter vectors / %d unit vectors / %d figures of merit"
                     % (st["total"], len(r["params"]), len(r["units"]), len(r["foms"]))))
+    valid = [(d[0], d[1], d[2]) for d in r["draws"] if d[2] is not None]
+    got = list(zip(r["units"], r["params"], r["foms"]))
+    if len(got) == st["total"] and valid != got:
+        out.append(("filter", "the points returned are not exactly the drawn points with a legal figure of merit, in drawing order: "
+                    "%d legal draws (figures of merit %r), %d returned" % (len(valid), [unhex(v[2]) for v in valid][:8], len(got))))
     drawn = {tuple(d[1]): d[0] for d in r["draws"]}
     for i, (u, p, f) in enumerate(zip(r["units"], r["params"], r["foms"])):
         vec = [unhex(x) for x in p]
-        if init_kind(st["bands"], vec) != "value":
-            out.append(("pairing", "returned point %d %r is one the fitness rejects (%s)" % (i, vec, init_kind(st["bands"], vec))))
-        elif unhex(f) != init_value(vec):
-            out.append(("pairing", "returned point %d %r carries figure of merit %r, its fitness is %r" % (i, vec, unhex(f), init_value(vec))))
+        k = init_kind(st["bands"], vec)
+        want = INIT_VALID[k] if k in INIT_VALID else init_value(vec)
+        if k not in INIT_VALID and k not in ("value", "np0d"):
+            out.append(("pairing", "returned point %d %r is one the fitness rejects (%s)" % (i, vec, k)))
+        elif unhex(f) != want or math.copysign(1.0, unhex(f)) != math.copysign(1.0, want):
+            out.append(("pairing", "returned point %d %r carries figure of merit %r, its fitness is %r" % (i, vec, unhex(f), want)))
         if drawn.get(tuple(p)) != u:
             out.append(("pairing", "returned point %d: unit vector and parameter vector are not one draw" % i))
     return out[:4]
@@ -394,8 +533,9 @@ E2E_SEARCHES = ["drawer", "emcee", "dynesty_static", "dynesty_dynamic", "bfgs", 
 MULTICORE = ("emcee", "dynesty_static", "dynesty_dynamic", "bfgs", "lbfgs", "pyswarms_global", "pyswarms_local")
 
 
-def gen_e2e(rng, search, cores=1, thorough=False, force_reject=False, force_chunks=False):
-    spec = gen_spec(rng, max_priors=3)
+def gen_e2e(rng, search, cores=1, thorough=False, force_reject=False, force_chunks=False, shape=None, prefit=False,
+            ret="float", reject_mode="fitexc"):
+    spec = gen_spec(rng, max_priors=3, shape=shape)
     if not any(p["family"] == "gaussian" for p in spec["priors"]):
         # a flat prior has log prior 0.0: likelihood and posterior would be indistinguishable
         p = rng.choice(spec["priors"])
@@ -433,7 +573,7 @@ def gen_e2e(rng, search, cores=1, thorough=False, force_reject=False, force_chun
         case["refit"] = True
     if (search == "drawer" and (force_reject or rng.random() < 0.5)) or \
             search in ("pyswarms_global", "pyswarms_local") or \
-            (search in ("emcee", "dynesty_static", "dynesty_dynamic") and (cores >= 2 or rng.random() < 0.5)):
+            (search in ("emcee", "dynesty_static", "dynesty_dynamic") and (cores >= 2 or force_reject or rng.random() < 0.5)):
         # a region where the fit raises FitException: the initializer must drop those draws
         # without shifting the likelihoods of the remaining ones
         path, (kind, k) = rng.choice([lf for lf in leaves(spec["root"]) if lf[1][0] == "p"])
@@ -446,7 +586,14 @@ def gen_e2e(rng, search, cores=1, thorough=False, force_reject=False, force_chun
             t = [tt for pth, cc, tt in terms if ".".join(pth) == path][0]
             width = 0.4
             a = lo + (hi - lo) * (0.55 if (t - lo) / (hi - lo) < 0.5 else 0.05)
-        case["reject"] = [path.split("."), a, a + (hi - lo) * width]
+        case["reject"] = [path.split("."), a, a + (hi - lo) * width, reject_mode]
+    # (BFGS / LBFGS keep the figure of merit as the likelihood hands it over: with a 0-d array the fit dies in
+    #  save_samples_summary -- "ndarray is not JSON serializable" -- and returns no result at all: outside C05's statement)
+    case["ret"] = "np64" if (ret == "np0d" and search in ("bfgs", "lbfgs")) else ret
+    if prefit:
+        # history: the same search object first fits ANOTHER model with another likelihood
+        pspec = gen_spec(rng, max_priors=2)
+        case["prefit"] = {"spec": pspec, "terms": terms_of(rng, pspec)}
     return case
 
 
@@ -507,7 +654,7 @@ def oracle(c, r):
         vec = [vals[k] for k in spec["creation"]]
         rejected = False
         if c.get("reject"):
-            rp, rlo, rhi = c["reject"]
+            rp, rlo, rhi = c["reject"][:3]
             rejected = rlo <= vals[prior_of_path[".".join(rp)]] < rhi
         outside = c["kind"] == "e2e" and any(
             p["family"] == "uniform" and not (unhex(p["lo"]) <= vals[k] <= unhex(p["hi"])) for k, p in enumerate(spec["priors"]))
@@ -550,6 +697,21 @@ def oracle(c, r):
         if not (w >= 0.0):
             add("weight", "sample %d has weight %r" % (i, w))
 
+    # second routes to the same per-sample answers: the list properties of the Samples object
+    routes = obs.get("routes") or {}
+    hist = obs.get("history") or {}
+    for name, key in (("ll_list", "ll"), ("lp_list", "lp"), ("w_list", "w"), ("post_list", "post")):
+        if name in routes and routes[name] != [s_[key] for s_ in samples]:
+            add("routes", "Samples.%s is not the list of the samples' own values: %r" % (
+                {"ll_list": "log_likelihood_list", "lp_list": "log_prior_list", "w_list": "weight_list",
+                 "post_list": "log_posterior_list"}[name], str(routes[name])[:200]))
+    for name in ("len",):        # (total_samples is the number of likelihood calls for nested samplers: not a route)
+        if name in routes and routes[name] != len(samples):
+            add("routes", "Samples.%s is %r, there are %d samples" % ({"total": "total_samples", "len": "__len__"}[name], routes[name], len(samples)))
+    if c.get("history") and (r.get("notes") or {}).get("again_equal") is False:
+        add("history", "the same search object converting the same sampler state a second time gives another answer: %s"
+            % str((r.get("notes") or {}).get("again_obs"))[:300])
+
     # best fit (a NaN log-likelihood is outside the property: Fitness never lets one reach a sampler; the
     # model still predicts what the code does with it and the correspondence compares that)
     if samples and any(math.isnan(x) for x in lls):
@@ -586,6 +748,62 @@ def oracle(c, r):
                     if sm["kw"] != samples[obs["best"]]["kw"]:
                         add("best", "summary's max_log_likelihood_sample is not the maximising sample")
                     check_instance(sm["instance"], "summary.instance")
+                # every other public route to the best fit, asked of the same object
+                best_kw = samples[obs["best"]]["kw"]
+                if isinstance(routes.get("index"), int) and not (0 <= routes["index"] < len(lls) and lls[routes["index"]] == m):
+                    add("routes", "max_log_likelihood_index %r does not point at a maximum-likelihood sample" % routes["index"])
+                if "ll_prop" in routes and (str(routes["ll_prop"]).startswith("exc:") or unhex(routes["ll_prop"]) != m):
+                    add("routes", "Samples.log_likelihood is %r, the maximum over the samples is %r" % (routes["ll_prop"], m))
+                for name, what in (("mll_instance", "max_log_likelihood()"), ("instance_prop", "Samples.instance"),
+                                   ("from_index", "from_sample_index(best)"), ("instances_best", "instances[best]")):
+                    v = routes.get(name)
+                    if isinstance(v, str):
+                        add("routes", "%s raised %s" % (what, v))
+                    elif v is not None:
+                        check_instance(v, what)
+                if isinstance(routes.get("from_index_vec"), list) and [unhex(x) for x in routes["from_index_vec"]] != want_vec:
+                    add("routes", "from_sample_index(best, as_instance=False) %r is not the best sample's vector %r" % (routes["from_index_vec"], want_vec))
+                if isinstance(routes.get("n_instances"), int) and routes["n_instances"] != len(samples):
+                    add("routes", "Samples.instances has %d entries for %d samples" % (routes["n_instances"], len(samples)))
+                vp = routes.get("values_for_path")
+                if isinstance(vp, list) and vp[0] != vp[1]:
+                    add("routes", "values_for_path differs from the samples' own kwargs")
+                # use - use again on the returned object, and the objects derived from it after its answers were cached
+                if hist.get("instance_again") is False or hist.get("best_again") is False:
+                    add("history", "asking the same Samples object twice gives two answers (instance / max_log_likelihood_sample)")
+                for name, want_n in (("added", 2 * len(samples)), ("minimised", None), ("thresholded", len(samples)), ("copied", len(samples)),
+                                     ("added_better", len(samples) + 1), ("thresholded_best_removed", None)):
+                    d = hist.get(name)
+                    if not isinstance(d, dict):
+                        continue
+                    dm = m
+                    if "want_ll" in d:
+                        dm = unhex(d["want_ll"])
+                    if "thr" in d:
+                        kept = [unhex(s_["ll"]) for s_ in samples if unhex(s_["w"]) > unhex(d["thr"])]
+                        if not kept:
+                            continue
+                        dm, want_n = max(kept), len(kept)
+                    if want_n is not None and d["n"] != want_n:
+                        add("history", "derived Samples (%s) has %d samples, expected %d" % (name, d["n"], want_n))
+                    if unhex(d["best_ll"]) != dm or unhex(d["ll"]) != dm:
+                        add("history", "derived Samples (%s): best log-likelihood %r / %r, maximum %r" % (name, d["best_ll"], d["ll"], dm))
+                    dvals = values_of(d["best_kw"], "derived " + name)
+                    if dvals is not None and unhex(d["best_ll"]) == dm:
+                        dvec = [dvals[k] for k in spec["creation"]]
+                        if [unhex(x) for x in d["vec"]] != dvec:
+                            add("history", "derived Samples (%s): best vector is not its best sample's parameters" % name)
+                        for path, v in d["instance"]:
+                            k_, x_ = kind[path]
+                            if unhex(v) != (dvals[x_] if k_ == "p" else x_):
+                                # copy-built objects (copy, minimise: with tied maxima the kept sample can be another one)
+                                # inherit the parent's cached instance: the known finding's clause
+                                add("derived-instance" if name in ("minimised", "copied") else "history",
+                                    "derived Samples (%s): instance attribute %s = %r is not its own best sample's value" % (name, path, unhex(v)))
+                                break
+                if isinstance(hist.get("with_paths_fresh"), list) and hist.get("with_paths_used") != hist["with_paths_fresh"]:
+                    add("derived-instance", "samples.with_paths([first component]).instance has components %r when asked of a fresh Samples "
+                        "object and %r once the parent's instance has been read" % (hist["with_paths_fresh"], hist.get("with_paths_used")))
                 res = obs.get("result")
                 if res is not None:
                     if unhex(res["ll"]) != m:
@@ -726,6 +944,9 @@ def classes_of(c, aspect):
     # the zeus label applies only while the source has the pinned (unaligned) log-prob call
     if s == "zeus" and aspect == "ll" and VARIANTS.get("Zeus") == "unaligned":
         out.append("zeus-logprob-unthinned")
+    if aspect == "derived-instance":
+        # only the clause "a copy-built derived Samples object hands out the parent's cached instance"
+        out.append("samples-copy-keeps-instance")
     return out
 
 
@@ -835,10 +1056,12 @@ def gen_cases(ctx):
     cases = []
     per = 14 if not thorough else 110
     for s in CONV_SEARCHES:
-        for _ in range(per + (6 if s in ("emcee", "from_lists") else 0)):
-            cases.append(gen_conv(rng, s))
-    for _ in range(24 if not thorough else 160):
-        cases.append(gen_init(rng))
+        for j in range(per + (6 if s in ("emcee", "from_lists") else 0)):
+            # by construction, every search and every seed: each model shape at least twice, every second case a
+            # use - use again history of one search object and one model object
+            cases.append(gen_conv(rng, s, shape=SHAPES[j % len(SHAPES)] if j < 2 * len(SHAPES) else None, history=(j % 2 == 1), variant=j))
+    for j in range(24 if not thorough else 160):
+        cases.append(gen_init(rng, history=(j % 2 == 0), falsy=(j % 3 == 0), shape=SHAPES[j % len(SHAPES)] if j % 4 == 1 else None))
     e2e = []
     if not thorough:
         plan = [(s, 1) for s in E2E_SEARCHES] + [("dynesty_static", 2), ("emcee", 2), ("lbfgs", 2), ("pyswarms_global", 2)]
@@ -848,10 +1071,17 @@ def gen_cases(ctx):
             plan += [(s, 1)] * 6
             if s in MULTICORE:
                 plan += [(s, 2)] * 3
-    for s, cores in plan:
-        e2e.append(gen_e2e(rng, s, cores, thorough, force_chunks=(cores == 1)))
-    for _ in range(1 if not thorough else 4):
-        e2e.append(gen_e2e(rng, "drawer", 1, thorough, force_reject=True))
+    combos = [("np0d", "nan"), ("np64", "fitexc"), ("float", "nan"), ("np0d", "fitexc"), ("np64", "nan"), ("float", "fitexc")]
+    for j, (s, cores) in enumerate(plan):
+        ret, mode = combos[(j + 5) % 6]       # quick: emcee at one core gets (0-d array, NaN region), by construction
+        # by construction: shapes, the type of the returned likelihood and FitException / NaN regions rotate over the
+        # plan; a search object that has fitted another model before: drawer, lbfgs, dynesty_static at one core (quick)
+        prefit = (cores == 1 and s in ("drawer", "lbfgs", "dynesty_static")) if not thorough else (j % 3 == 0)
+        e2e.append(gen_e2e(rng, s, cores, thorough, force_chunks=(cores == 1), shape=SHAPES[(j + 1) % len(SHAPES)],
+                           prefit=prefit, ret=ret, reject_mode=mode, force_reject=(s in ("emcee", "dynesty_static") and cores == 1)))
+    for j in range(1 if not thorough else 4):
+        e2e.append(gen_e2e(rng, "drawer", 1, thorough, force_reject=True, shape=SHAPES[(j + 3) % len(SHAPES)],
+                           reject_mode="nan", ret="np0d"))
     return cases, e2e
 
 
@@ -863,7 +1093,16 @@ def run(ctx):
                 "two sampler points (conv) or any real run (e2e); init cases run AbstractInitializer.samples_from_model on a scripted "
                 "fitness (value / FitException / NaN / below -1e98) with n_cores in {1,2,3} (non-trivial: >= 2 points); every e2e spec has "
                 "a Gaussian prior whose optimum is off the prior mean; e2e runs with emcee / dynesty / pyswarms (always at 2 cores) and "
-                "Drawer include a region where the likelihood raises FitException; distinct = distinct abstract input")
+                "Drawer include a region where the likelihood raises FitException or returns NaN (alternating); distinct = distinct abstract input. "
+                "Sweep classes, by construction in every seed: (1) histories -- every second conv case reuses ONE search object and ONE "
+                "model object (another sampler state converted first, the case's state converted twice), every second init case reuses one "
+                "initializer whose earlier lists the caller edited, e2e drawer / lbfgs / dynesty_static fit another model first with the same "
+                "search object, and every returned Samples object is asked twice and through its derived objects (+, threshold, copy, "
+                "minimise, with_paths) after its instance was cached; (2) unusual legal values -- best likelihood exactly 0.0 / -0.0, whole "
+                "numbers as int, numpy scalars / arrays, zero weights, rows at the exact optimum / at 0.0 / -0.0 / duplicated, figures of "
+                "merit 0.0 / -0.0 / int / 0-d array in the initializer, likelihoods returned as numpy.float64 / 0-d array; (3) every public "
+                "route to the per-sample lists and to the best fit is compared on the same object; (4) model shapes root-Model, list "
+                "collection (item names '0','1'), one Model object twice in a container, unusual attribute names; (5) NaN next to FitException")
     ctx.trusted = [
         "Coq 8.16.1 kernel incl. vm_compute; primitive floats (PrimFloat, Uint63) are kernel primitives",
         "correspondence harness c05.py / impl/c05_impl.py / impl/c05_classes.py; Python float.hex; numpy.exp and the prior objects' "
@@ -965,6 +1204,9 @@ def run(ctx):
         ctx.oracle["cases"] += 1
         if c["kind"] == "init":
             ctx.hist("init_cores", c["state"]["cores"])
+            ctx.hist("init_history", "reused-initializer" if c["state"].get("prev") else "fresh")
+            for b in c["state"]["bands"]:
+                ctx.hist("init_band", b[2])
             if "exc" in r:
                 ctx.oracle["failures"] += 1
                 ctx.failure("oracle", "initializer raised %s: %s" % (r["exc"], r.get("msg")), key, classes=["initializer:raised"], impl=r)
@@ -1011,6 +1253,21 @@ def run(ctx):
             coq_idx.append(i)
             continue
         ok_r = r["ok"]
+        if c["kind"] == "conv":
+            ctx.hist("conv_history", "%s:%s" % (c["search"], "reused-search(prev %s)" % (ok_r.get("notes") or {}).get("prev")
+                                                if c.get("history") else "fresh"))
+            for sp in c.get("special", []):
+                ctx.hist("special", sp)
+            if c["search"] == "from_lists":
+                ctx.hist("scalar_type", c["state"].get("scalar"))
+        else:
+            ctx.hist("e2e_likelihood_type", c.get("ret"))
+            ctx.hist("e2e_reject", "none" if not c.get("reject") else (c["reject"][3] if len(c["reject"]) > 3 else "fitexc"))
+            ctx.hist("e2e_search_history", "%s:%s" % (c["search"], "prefit-" + str((ok_r.get("notes") or {}).get("prefit"))
+                                                      if c.get("prefit") else "fresh"))
+        for name, d in (ok_r["obs"].get("history") or {}).items():
+            if isinstance(d, str) and d.startswith("exc:"):
+                ctx.hist("derived_not_observed", "%s:%s" % (name, d))
         ctx.hist("outcome", "samples=%s" % ("0" if not ok_r["obs"]["samples"] else "1" if len(ok_r["obs"]["samples"]) == 1 else "2+"))
         if ok_r["obs"].get("summary_fallback") or (ok_r.get("notes") or {}).get("fit_failed"):
             ctx.hist("numpy_median_pdf_workaround", c["search"])
@@ -1123,7 +1380,11 @@ MANIFEST = {
             "first-maximum best fit and the vector handed to instance_from_vector), proved for all sampler states under the "
             "stated sampler contracts, with refutation witnesses for the conversions that violate the property; bit-exact vm_compute "
             "correspondence of the model with the real conversion functions (generated sampler states and the arrays of real "
-            "sampler runs) and a direct oracle that recomputes the likelihood of every returned sample",
+            "sampler runs) and a direct oracle that recomputes the likelihood of every returned sample, compares every public route "
+            "to the best fit on the same object and replays use - change - use again histories of the search, initializer and Samples "
+            "objects; the Samples object with its `_instance` cache and its derived objects is a Coq state machine (Machine.v): every "
+            "answer of every history equals the fresh answer for every sound cache policy, partial for the pinned code (no "
+            "with_paths / without_paths after `instance`), refuted with a witness otherwise (known finding samples-copy-keeps-instance)",
     "note": "Trusted: Coq kernel + vm_compute, primitive floats, the correspondence harness, numpy.exp / prior objects as oracle "
             "tables. The third-party samplers are hypotheses (sampler contracts) plus end-to-end runs; zeus / nautilus / ultranest "
             "are not installed and are exercised through fake internals only. Theorems are over exact arithmetic.",
